@@ -30,7 +30,7 @@ import xml.etree.ElementTree as ET
 from http import client
 from typing import (Callable, Iterable, Iterator, List, Optional, Sequence,
                     Tuple, Union)
-from urllib.parse import unquote, urlparse
+from urllib.parse import unquote, urlsplit
 
 import vobject
 import vobject.base
@@ -188,7 +188,7 @@ def xml_report(base_prefix: str, path: str, xml_request: Optional[ET.Element],
         # Read rfc4791-7.9 for info
         hreferences = set()
         for href_element in root.findall(xmlutils.make_clark("D:href")):
-            temp_url_path = urlparse(href_element.text).path
+            temp_url_path = urlsplit(href_element.text).path
             assert isinstance(temp_url_path, str)
             href_path = pathutils.sanitize_path(unquote(temp_url_path))
             if (href_path + "/").startswith(base_prefix + "/"):
